@@ -120,6 +120,25 @@ theorem removeNode_final (x n : Nat) (g2 : G) (h2 : WFn n g2) :
 theorem removeNode_wfn (g : G) (x n : Nat) (h : WFn n g) : WFn n (g.removeNode x) :=
   removeNode_final x n _ (removeNode_fold2 x n _ _ (removeNode_fold1 x n _ g h))
 
+theorem makeTrue_wfn (g : G) (x n : Nat) (h : WFn n g) : WFn n (g.makeTrue x) := by
+  have h1 := removeNode_fold1 x n (g.outs.getD x []) g h
+  unfold G.makeTrue
+  generalize (g.outs.getD x []).foldl (fun g b => { g with ins := g.ins.setIfInBounds b ((g.ins.getD b []).filter (· != x)) }) g = g1 at h1
+  have hsz : (g1.kind.setIfInBounds x (some GK.tru)).size = g1.kind.size := by simp
+  refine ⟨⟨?_, ?_⟩, ?_⟩
+  · show (g1.outs.setIfInBounds x []).size = (g1.kind.setIfInBounds x (some GK.tru)).size
+    rw [hsz, Array.size_setIfInBounds]; exact h1.1.osz
+  · intro y c hc
+    have hc' : c ∈ (g1.outs.setIfInBounds x []).getD y [] := hc
+    show c < (g1.kind.setIfInBounds x (some GK.tru)).size
+    rw [hsz]
+    rw [getD_setIfInBounds] at hc'
+    split at hc'
+    · cases hc'
+    · exact h1.1.edges y c hc'
+  · show (g1.kind.setIfInBounds x (some GK.tru)).size = n
+    rw [hsz]; exact h1.2
+
 theorem err_wfn (g : G) (n : Nat) (h : WFn n g) : WFn n { g with err := true } :=
   ⟨⟨h.1.osz, h.1.edges⟩, h.2⟩
 
@@ -155,7 +174,7 @@ theorem elimNode_go_wfn (n nx : Nat) : ∀ (cs : List Nat) (g : G), WFn n g → 
     · exact ih g h
     · split
       · exact ih _ ⟨removeEdge_wf g nx c h.1, h.2⟩
-      · exact ih g h
+      · exact makeTrue_wfn g nx n h
       · exact err_wfn g n h
       · exact err_wfn g n h
     · split
